@@ -332,6 +332,43 @@ fn angles(acc: &Acc, tier: Tier) {
     }
     acc.rep.set("dms_lattice_points", json!(n_dms));
 
+    // the textual degree:minute:second encoding (D, D:M, D:M:S with a sign prefix or a hemisphere letter):
+    // complete product degrees {0..3, 59, 60, 179, 180, 359} x minutes x seconds x sign spelling x fields
+    let mut n_text = 0u64;
+    for d in [0u32, 1, 2, 3, 59, 60, 179, 180, 359] {
+        for m in [0u32, 1, 30, 59] {
+            for s in ["0", "0.5", "36", "59.999", "00.25"] {
+                for fields in 1..=3 {
+                    let (mag_text, mag) = match fields {
+                        1 => (format!("{d}.{m:02}"), format!("{d}.{m:02}").parse::<f64>().unwrap()),
+                        2 => (format!("{d}:{m}"), d as f64 + m as f64 / 60.),
+                        _ => (format!("{d}:{m}:{s}"), d as f64 + (m as f64 + s.parse::<f64>().unwrap() / 60.) / 60.),
+                    };
+                    for (spelling, text, sign) in [
+                        ("unsigned", mag_text.clone(), 1.),
+                        ("plus prefix", format!("+{mag_text}"), 1.),
+                        ("minus prefix", format!("-{mag_text}"), -1.),
+                        ("N/E letter", format!("{mag_text}{}", if m % 2 == 0 { "N" } else { "e" }), 1.),
+                        ("S/W letter", format!("{mag_text}{}", if m % 2 == 0 { "S" } else { "w" }), -1.),
+                    ] {
+                        n_text += 1;
+                        let exp = sign * mag;
+                        let got = parse_sexagesimal(&text);
+                        let cls = if d == 0 { "zero degrees" } else { "non-zero degrees" };
+                        let form = ["", "plain decimal", "D:M", "D:M:S"][fields];
+                        acc.check(
+                            (got - exp).abs() <= 4. * ulp(exp) && (mag == 0. || got.signum() == exp.signum()),
+                            &format!("parse_sexagesimal wrong for {cls} / {form} / {spelling}"),
+                            || json!({"fn": "parse_sexagesimal", "text": text, "got": got, "expected": exp}),
+                        );
+                        acc.seen(hash_of(&bits(got)));
+                    }
+                }
+            }
+        }
+    }
+    acc.rep.set("sexagesimal_texts", json!(n_text));
+
     // decimal degree lattices
     let mut lattice: Vec<f64> = Vec::new();
     let fine = tier.pick(10i64, 100); // quick: every 0.5" in [-2°, 2°]; thorough: every 0.05"
